@@ -19,6 +19,16 @@ typedef uint8_t byte;
 #define A3 17
 #define A4 18
 #define A5 19
+#define A6 20
+#define A7 21
+#define A8 22
+#define A9 23
+#define A10 24
+#define A11 25
+#define A12 26
+#define A13 27
+#define A14 28
+#define A15 29
 void pinMode(uint8_t pin, uint8_t mode);
 void digitalWrite(uint8_t pin, uint8_t val);
 int digitalRead(uint8_t pin);
